@@ -364,7 +364,7 @@ fn lattice(ctx: &Ctx, st: &mut Stats, side: usize, hi: f64, chk: fn(&Case, &mut 
 
 /// real-size images (see gen::LARGE_SIZES)
 fn large_images(ctx: &Ctx, st: &mut Stats, chk: fn(&Case, &mut Stats) -> Result<(), Violation>) -> Vec<Violation> {
-    let sizes: Vec<(usize, usize)> = if ctx.light { vec![(257, 255), (521, 511)] } else if ctx.quick() { crate::gen::LARGE_SIZES[..8].to_vec() } else { crate::gen::LARGE_SIZES.to_vec() };
+    let sizes: Vec<(usize, usize)> = if ctx.light { vec![(257, 255), (521, 511)] } else { crate::gen::large_sizes(ctx.quick()) };
     let seed0 = ctx.seed;
     par_sweep(ctx, st, sizes.len() as u64 * 3, |lo, hi, st| {
         for j in lo..hi {
